@@ -72,13 +72,16 @@ def gen_history(r, tier, forced=None):
         K = r.randint(1, 6)
     init = "uniform"
     steps = []
-    mode = r.choice(["mixed", "mixed", "clean", "nofreeze", "skippy"])
+    mode = r.choice(["mixed", "mixed", "clean", "nofreeze", "skippy", "epochs", "net-nothing"])
     for k in range(K):
-        cmd = 0
+        cmd = []
         if mode == "skippy":
-            cmd = r.randint(0, 6)
-        elif mode == "mixed" and r.random() < 0.25:
-            cmd = r.randint(1, 6)
+            cmd = [r.randint(1, 6) for _ in range(r.randint(0, 3))]
+        elif mode == "net-nothing" and r.random() < 0.6:
+            # command histories that net to nothing before the step: it must behave as if none had been issued
+            cmd = list(r.choice([[1, 2], [3, 4], [5, 6], [5, 2, 4], [1, 3, 6], [1, 2, 1, 2], [3, 1, 2, 4], [5, 6, 5, 6], [1, 6], [3, 6], [5, 4, 2]]))
+        elif mode in ("mixed", "epochs") and r.random() < 0.25:
+            cmd = [r.randint(1, 6)]
         fr = 1
         if mode == "nofreeze":
             fr = 1 if r.random() < 0.3 else 0
@@ -86,25 +89,27 @@ def gen_history(r, tier, forced=None):
             fr = 0
         va = 0 if (mode != "clean" and r.random() < 0.12) else 1
         style = r.choice(LIK_STYLES)
-        steps.append((cmd, fr, va, gen_lik(r, style, n), style))
+        rst = 1 if (mode == "epochs" and r.random() < 0.2) else 0
+        shift = r.choice([1.0, 1.0, 2.0, -0.5, 0.25 * (k + 1)])          # time-varying prediction
+        steps.append((cmd, fr, va, gen_lik(r, style, n), style, rst, shift))
     if forced == "n3-onehot":
         n, K = 3, r.randint(1, 4)
-        steps = [(0, 1, 1, [1.0, 0.0, 0.0][::r.choice([1, -1])], "onehot")] + \
-                [(0, r.choice([0, 1]), 1, [1.0, 1.0, 1.0], "ones") for _ in range(K - 1)]
+        steps = [([], 1, 1, [1.0, 0.0, 0.0][::r.choice([1, -1])], "onehot", 0, 1.0)] + \
+                [([], r.choice([0, 1]), 1, [1.0, 1.0, 1.0], "ones", 0, 1.0) for _ in range(K - 1)]
     if forced == "n3-init-onehot":
         n, K, init = 3, r.randint(1, 3), "onehot"
-        steps = [(0, 0, 1, [1.0] * 3, "ones") for _ in range(K)]
+        steps = [([], 0, 1, [1.0] * 3, "ones", 0, 1.0) for _ in range(K)]
     if forced == "init-peaked":
         n, K, init = r.randint(4, 20), r.randint(1, 3), "peaked"
-        steps = [(0, 0, 1, [1.0] * n, "ones") for _ in range(K)]
+        steps = [([], 0, 1, [1.0] * n, "ones", 0, 1.0) for _ in range(K)]
     if forced == "n6-twohot":
         n, K = 6, 2
-        steps = [(0, 1, 1, [1.0, 1.0, 0.0, 0.0, 0.0, 0.0], "twohot"), (0, 0, 1, [1.0] * 6, "ones")]
+        steps = [([], 1, 1, [1.0, 1.0, 0.0, 0.0, 0.0, 0.0], "twohot", 0, 1.0), ([], 0, 1, [1.0] * 6, "ones", 0, 1.0)]
     if forced in ("circ-resample", "circ-resample-prior"):
         n = r.randint(4, 30)
         circ = r.randint(1, 2)
         K = r.randint(1, 5)
-        steps = [(r.choice([0, 0, 1, 3]), 1, 1, gen_lik(r, "peaked", n), "peaked") for _ in range(K)]
+        steps = [(r.choice([[], [], [1], [3]]), 1, 1, gen_lik(r, "peaked", n), "peaked", 0, 1.0) for _ in range(K)]
     if init == "uniform":
         w0 = [-math.log(n)] * n
     elif init == "peaked":
@@ -118,14 +123,35 @@ def gen_history(r, tier, forced=None):
         l = lse(xs)
         w0 = [x - l for x in xs]
         init = "random-normalised"
+    if forced == "unnorm-init":
+        # un-normalised initial weights and a failing acquisition at step 0 (outside the hypothesis InitOK, inside the
+        # clause "when it is not, the corrected set equals the predicted set")
+        n = r.randint(1, 12)
+        K = r.randint(1, 4)
+        w0 = r.choice([[0.0] * n, [r.uniform(-3, 1) for _ in range(n)], [-0.5] * n, [-2.0 - math.log(n)] * n])
+        init = "unnormalised"
+        steps = [([], 0, 1, gen_lik(r, "random", n), "random", 0, 1.0)] + \
+                [([], r.choice([0, 1]), 1, gen_lik(r, "random", n), "random", 0, 1.0) for _ in range(K - 1)]
     x0 = [1000.0 * (i + 1) for i in range(n)]
+    inits = [(w0, x0)]
+    if any(st[5] for st in steps):
+        # time-varying initialisation model: every epoch gets its own weights and positions
+        for e in range(1, r.randint(2, 3)):
+            kind = r.choice(["uniform", "random", "unnormalised"])
+            if kind == "uniform":
+                we = [-math.log(n)] * n
+            else:
+                xs = [r.uniform(-5, 0) for _ in range(n)]
+                l = lse(xs) if kind == "random" else 0.0
+                we = [x - l for x in xs]
+            inits.append((we, [100000.0 * e + 1000.0 * (i + 1) for i in range(n)]))
     seed = r.randrange(1, 2 ** 32)
     prior, ratio = 0, 0.0
     if (forced is None and r.random() < 0.25) or forced == "circ-resample-prior":
         prior = 1
         ratio = r.choice([0.0, 0.1, 0.25, 0.3, 0.5, 0.75, 0.9, r.uniform(0, 0.95)])
     meta = {"n": n, "lin": lin, "circ": circ, "K": len(steps), "mode": forced or mode, "init": init, "seed": seed, "prior": prior}
-    return (seed, n, lin, circ, w0, x0, steps, prior, ratio), meta
+    return (seed, n, lin, circ, inits, None, steps, prior, ratio), meta
 
 
 def draw_count(case):
@@ -135,27 +161,33 @@ def draw_count(case):
 
 
 def make_lines(case, us):
-    seed, n, lin, circ, w0, x0, steps, prior, ratio = case
-    body = "%d %d %d %d %d %d %s %s %s %s" % (n, lin, circ, len(steps), len(us), prior, hexd(ratio), " ".join(us),
-                                      " ".join(hexd(x) for x in w0), " ".join(hexd(x) for x in x0))
-    for cmd, fr, va, lik, _ in steps:
-        body += " %d %d %d %s" % (cmd, fr, va, " ".join(hexd(x) for x in lik))
+    seed, n, lin, circ, inits, _, steps, prior, ratio = case
+    body = "%d %d %d %d %d %d %s %s %d %s" % (n, lin, circ, len(steps), len(us), prior, hexd(ratio), " ".join(us), len(inits),
+                                         " ".join(" ".join(hexd(x) for x in w) + " " + " ".join(hexd(x) for x in x) for w, x in inits))
+    for cmd, fr, va, lik, _, rst, shift in steps:
+        body += " %d %s%d %d %d %s %s" % (len(cmd), "".join("%d " % c for c in cmd), fr, va, rst, hexd(shift), " ".join(hexd(x) for x in lik))
     return "sis %d %s" % (seed, body), "sis " + body
 
 
 def parse_line(line):
-    """corpus line (a harness line) -> case tuple"""
+    """corpus / replay line (a harness line) -> case tuple"""
     t = line.split()
     seed, n, lin, circ, K, D, prior = [int(x) for x in t[1:8]]
     ratio = unhex(t[8])
     p = 9 + D
-    w0 = [unhex(x) for x in t[p:p + n]]; p += n
-    x0 = [unhex(x) for x in t[p:p + n]]; p += n
+    E = int(t[p]); p += 1
+    inits = []
+    for _ in range(E):
+        w0 = [unhex(x) for x in t[p:p + n]]; p += n
+        x0 = [unhex(x) for x in t[p:p + n]]; p += n
+        inits.append((w0, x0))
     steps = []
     for _ in range(K):
-        cmd, fr, va = int(t[p]), int(t[p + 1]), int(t[p + 2]); p += 3
-        steps.append((cmd, fr, va, [unhex(x) for x in t[p:p + n]], "corpus")); p += n
-    return (seed, n, lin, circ, w0, x0, steps, prior, ratio), {"n": n, "lin": lin, "circ": circ, "K": K, "mode": "corpus", "init": "corpus", "seed": seed, "prior": prior}
+        nc = int(t[p]); p += 1
+        cmd = [int(x) for x in t[p:p + nc]]; p += nc
+        fr, va, rst = int(t[p]), int(t[p + 1]), int(t[p + 2]); shift = unhex(t[p + 3]); p += 4
+        steps.append((cmd, fr, va, [unhex(x) for x in t[p:p + n]], "corpus", rst, shift)); p += n
+    return (seed, n, lin, circ, inits, None, steps, prior, ratio), {"n": n, "lin": lin, "circ": circ, "K": K, "mode": "corpus", "init": "corpus", "seed": seed, "prior": prior}
 
 
 # --------------------------------------------------------------------------- parsing
@@ -171,6 +203,12 @@ def parse_blocks(tokens, with_x):
         b["parents"] = [int(x) for x in tokens[p:p + npar]]; p += npar
         b["w"] = [unhex(x) for x in tokens[p:p + b["wrows"]]]; p += b["wrows"]
         b["x"] = [unhex(x) for x in tokens[p:p + b["ccols"]]]; p += b["ccols"]
+        assert tokens[p] == "L"
+        nl = int(tokens[p + 1]); p += 2
+        b["lw"] = [unhex(x) for x in tokens[p:p + nl]]; p += nl
+        if not with_x:
+            assert tokens[p] == "T"
+            b["stepno"] = int(tokens[p + 1]); p += 2
         if with_x:
             assert tokens[p] == "X"
             (b["srows"], b["mrows"], b["mcols"], b["crows"], b["covcols"], b["dim"], b["quat"], b["rows_ok"], b["u1ok"]) = [int(x) for x in tokens[p + 1:p + 10]]
@@ -179,6 +217,7 @@ def parse_blocks(tokens, with_x):
             for key in ("cw", "cs", "pw", "ps"):
                 k = int(tokens[p]); p += 1
                 b[key] = [unhex(x) for x in tokens[p:p + k]]; p += k
+            b["stepno"], b["log_calls"] = int(tokens[p]), int(tokens[p + 1]); p += 2
         out.append(b)
     return out, p
 
@@ -199,7 +238,7 @@ def bits_equal(a, b):
 
 def check_history(case, meta, h, d, stats, hist):
     probs = []
-    seed, n, lin, circ, w0, x0, steps, prior, ratio = case
+    seed, n, lin, circ, inits, _, steps, prior, ratio = case
     kprior = int(math.floor(n * ratio)) if prior else 0
     K = len(steps)
     if not h.startswith("ok"):
@@ -223,22 +262,33 @@ def check_history(case, meta, h, d, stats, hist):
         probs.append(("corr", "model-undefined", "model not defined: %s" % d[:60]))
     thr = n / 3.0
     wl = hexd(-math.log(n))
+    epoch, local = 0, 0                       # epoch = number of resets seen so far; local = step number inside the epoch
+    w0, x0 = inits[0]
     prev_w, prev_x = list(w0), list(x0)
+    prev_norm = abs(lse(w0)) <= 1e-10         # are the weights handed to this step normalised?
     skipP = skipC = False
     live = mblocks is not None
-    for k, (cmd, fr, va, lik, style) in enumerate(steps):
+    for k, (cmds, fr, va, lik, style, rst, shift) in enumerate(steps):
         b = blocks[k]
-        if cmd in (1, 2):
-            skipP = (cmd == 1)
-        elif cmd in (3, 4):
-            skipC = (cmd == 3)
-        elif cmd in (5, 6):
-            skipP = skipC = (cmd == 5)
-        where = "step %d of %d (N=%d, lin=%d, circ=%d)" % (k, K, n, lin, circ)
+        for cmd in cmds:
+            if cmd in (1, 2):
+                skipP = (cmd == 1)
+            elif cmd in (3, 4):
+                skipC = (cmd == 3)
+            elif cmd in (5, 6):
+                skipP = skipC = (cmd == 5)
+        if len(cmds) > 1:
+            stats["steps_after_several_commands"] = stats.get("steps_after_several_commands", 0) + 1
+        where = "step %d of %d (epoch %d, step %d in it; N=%d, lin=%d, circ=%d)" % (k, K, epoch, local, n, lin, circ)
         trig = bool(b["trig"])
-        cls = "%s%s%s%s%s%s" % ("step0 " if k == 0 else "", "freeze " if fr else "nofreeze ", "valid " if va else "invalid ",
+        cls = "%s%s%s%s%s%s" % ("step0 " if local == 0 else "", "freeze " if fr else "nofreeze ", "valid " if va else "invalid ",
                                "skipP " if skipP else "", "skipC " if skipC else "", "resample" if trig else "keep")
         hist[cls] = hist.get(cls, 0) + 1
+        if epoch > 0:
+            stats["steps_in_later_epochs"] = stats.get("steps_in_later_epochs", 0) + 1
+        norm_expected = bool(fr or trig or prev_norm)
+        if not norm_expected:
+            stats["steps_with_unnormalised_weights_handed_on"] = stats.get("steps_with_unnormalised_weights_handed_on", 0) + 1
         # ------------------------------------------------ the property's predicates on the implementation
         if not (b["cn"] == n and b["ccols"] == n and b["wrows"] == n and b["mcols"] == n):
             probs.append(("prop", "particle-count", "%s: corrected set has components=%d, state columns=%d, mean columns=%d, weights=%d" % (where, b["cn"], b["ccols"], b["mcols"], b["wrows"])))
@@ -250,8 +300,9 @@ def check_history(case, meta, h, d, stats, hist):
             probs.append(("prop", "weight-not-finite", "%s: a log-weight is not finite (likelihood style %s): %s" % (where, style, b["w"][:6])))
             break
         l = lse(b["w"])
-        stats["max_abs_lse"] = max(stats.get("max_abs_lse", 0.0), abs(l))
-        if not abs(l) <= 1e-10:
+        if norm_expected:
+            stats["max_abs_lse"] = max(stats.get("max_abs_lse", 0.0), abs(l))
+        if norm_expected and not abs(l) <= 1e-10:
             probs.append(("prop", "not-normalised", "%s: log-sum-exp of the corrected log-weights is %.3g" % (where, l)))
             break
         cw = b["cw"]
@@ -294,12 +345,12 @@ def check_history(case, meta, h, d, stats, hist):
                 break
             pre_x = b["x"]
         # the predicted set as the (harness-defined) prediction produces it from the previous corrected set
-        if k == 0:
+        if local == 0:
             exp_pw, exp_ps = list(w0), list(x0)
         elif skipP:
             exp_pw, exp_ps = prev_w, prev_x
         else:
-            exp_pw, exp_ps = prev_w, [x + 1.0 for x in prev_x]
+            exp_pw, exp_ps = prev_w, [x + shift for x in prev_x]
         pw, ps = b["pw"], b["ps"]
         if not fr:
             if not (bits_equal(cw, pw) and bits_equal(pre_x, ps)):
@@ -349,6 +400,9 @@ def check_history(case, meta, h, d, stats, hist):
                 else:
                     probs.append(("corr", "parents-model", "%s: parents differ from the model beyond rounding" % where))
                 live = False
+            elif len(mb["lw"]) != len(b["lw"]) or not all(close(a, c) for a, c in zip(mb["lw"], b["lw"])):
+                probs.append(("corr", "logged-model", "%s: the corrected weights seen by log() differ from the model's sisLogged" % where))
+                live = False
             elif not all(close(a, c) for a, c in zip(mb["w"], b["w"])):
                 probs.append(("corr", "weights-model", "%s: weights differ from the model" % where))
                 live = False
@@ -361,7 +415,21 @@ def check_history(case, meta, h, d, stats, hist):
                     stats["prior_steps_particles_differ_from_model"] = stats.get("prior_steps_particles_differ_from_model", 0) + 1
             else:
                 stats["steps_identical_to_model"] = stats.get("steps_identical_to_model", 0) + 1
+        # log(): called once, between the normalisation and the resampling decision (it sees the corrected weights)
+        if b["log_calls"] != 1 or not bits_equal(b["lw"], cw):
+            probs.append(("corr", "log-call", "%s: log() was called %d times / did not see the corrected weights the resampling decision was taken on" % (where, b["log_calls"])))
+        if live and mblocks[k].get("stepno") != b["stepno"]:
+            probs.append(("corr", "step-number", "%s: step_number() = %d, model %s" % (where, b["stepno"], mblocks[k].get("stepno"))))
+        if b["stepno"] != local:
+            probs.append(("corr", "step-number", "%s: step_number() = %d, expected %d" % (where, b["stepno"], local)))
         prev_w, prev_x = b["w"], b["x"]
+        prev_norm = norm_expected
+        local += 1
+        if rst:                               # reset during this step: the recursion re-initialises before the next one
+            epoch += 1
+            local = 0
+            w0, x0 = inits[epoch % len(inits)]
+            prev_norm = abs(lse(w0)) <= 1e-10
     return probs
 
 
@@ -467,7 +535,7 @@ def run(ctx):
         for ln in corpus.read_text().split("\n"):
             if ln.strip() and not ln.startswith("#"):
                 cases.append(parse_line(ln.strip()))
-    for forced in [] if replay_line else ["n3-onehot"] * 4 + ["n3-init-onehot"] * 2 + ["n6-twohot"] * 2 + ["init-peaked"] * 4 + ["circ-resample"] * ctx.n(12, 100) + ["circ-resample-prior"] * ctx.n(8, 60):
+    for forced in [] if replay_line else ["n3-onehot"] * 4 + ["n3-init-onehot"] * 2 + ["n6-twohot"] * 2 + ["init-peaked"] * 4 + ["unnorm-init"] * ctx.n(8, 60) + ["circ-resample"] * ctx.n(12, 100) + ["circ-resample-prior"] * ctx.n(8, 60):
         cases.append(gen_history(r, ctx.tier, forced))
     cases += [gen_history(r, ctx.tier) for _ in range(n_hist)]
     # the draws of the resampler's generator (twin generator, same seed, same distribution)
@@ -517,7 +585,7 @@ def run(ctx):
     ctx.coverage.update({
         "evaluations": len(cases) + n_lik, "distinct_nontrivial": len(nontrivial & distinct),
         "gaussian_likelihood_cases": n_lik, "gaussian_likelihood_fail_subsets_exhaustive": True,
-        "rule": "scripted histories of the real SIS filter thread: 1..%d steps, N in 1..50, layouts lin 0..3 / circ 0..2, per step a skip command "
+        "rule": "scripted histories of the real SIS filter thread (several skip commands per step incl. sequences netting to nothing, reset -> re-initialisation epochs with a time-varying initialiser, time-varying prediction shift, un-normalised initial weights with failing acquisition): 1..%d steps, N in 1..50, layouts lin 0..3 / circ 0..2, per step a skip command "
                 "(prediction/correction/all on/off), acquisition success/failure, valid/invalid likelihood, likelihood vectors (ones, random, peaked, exact zeros, "
                 "all zero, 1e-300, one-hot, two-hot, 1e300); forced boundary histories (N=3 one-hot: neff == N/3 exactly; resampling with circular components); "
                 "non-trivial = N > 1 and more than one step; distinct = distinct input lines" % (30 if ctx.quick() else 60),
